@@ -112,6 +112,65 @@ pub fn gen(rng: &mut Rng, thorough: bool, out: &mut Sink) {
         out.count(if d % 2 == 1 { "defs_with_prefix" } else { "defs_direct" });
         out.group(lines);
     }
+    // clean-up at its boundary: a Strip step with both sides > 0 on decoded text that consists of the strip
+    // character only (fewer copies than left + right, exactly as many, more), control tokens around it filtered
+    let nstrip = if thorough { 200 } else { 40 };
+    for d in 0..nstrip {
+        let mut def = gen_def(rng, d % 2 == 1, false);
+        let c = *rng.pick(&['▁', ' ', '#', 'é']);
+        let (l, r) = (rng.range(1, 4) as u32, rng.range(1, 4) as u32);
+        def.config.decoding = vec![Decoding::Strip { character: c, left: l, right: r }];
+        if rng.chance(1, 3) {
+            def.config.decoding.push(Decoding::Collapse { character: c });
+        }
+        let cid = 8_000_000u32;
+        let cbytes = c.to_string().into_bytes();
+        let mut lines = Vec::new();
+        let existing = def.model.vocab().iter().find(|t| t.bytes == cbytes).map(|t| t.id);
+        let cid = match existing {
+            Some(id) => id,
+            None => {
+                match &mut def.model {
+                    Model::BytePair { vocab, .. } | Model::Unigram { vocab, .. } | Model::WordPiece { vocab, .. } => vocab.push(Token { id: cid, bytes: cbytes.clone() }),
+                    #[allow(unreachable_patterns)]
+                    _ => {}
+                }
+                if let Model::Unigram { scores, .. } = &mut def.model {
+                    scores.push(-1.0);
+                }
+                cid
+            }
+        };
+        let tk = load(slot, "strip-boundary", def, &mut lines);
+        slot += 1;
+        if tk.tok.is_none() {
+            out.count("defs_failed_init");
+            out.group(lines);
+            continue;
+        }
+        let controls: Vec<u32> = tk.def.specials.iter().filter(|s| s.kind == SpecialTokenKind::Control).map(|s| s.id).collect();
+        let other: Vec<u32> = tk.def.model.vocab().iter().filter(|t| t.id != cid).map(|t| t.id).take(3).collect();
+        for k in 0..=(l + r + 1) as usize {
+            let mut ids: Vec<u32> = vec![cid; k];
+            for s in [false, true] {
+                lines.push(dec_line(&tk, &ids, s).unwrap());
+            }
+            if let Some(&ctl) = controls.first() {
+                ids.insert(0, ctl);
+                ids.push(ctl);
+                for s in [false, true] {
+                    lines.push(dec_line(&tk, &ids, s).unwrap());
+                }
+            }
+            if let Some(&o) = other.first() {
+                let mut mixed: Vec<u32> = vec![cid; k];
+                mixed.insert(k / 2, o);
+                lines.push(dec_line(&tk, &mixed, false).unwrap());
+            }
+        }
+        out.count("defs_strip_boundary");
+        out.group(lines);
+    }
     // shipped models
     let nship = if thorough { 300 } else { 25 };
     for (name, path) in shipped_models() {
